@@ -4,15 +4,15 @@ import multiprocessing
 import os
 import re
 
-from harness import fw, types_x as tx, gen_typed as gt
+from harness import fw, types_x as tx, gen_typed as gt, gen_c14x as gx
 
 META = {
-    "technique": "Coq proof that a Gallina mirror of the front end's layout/attribute passes (check_early_constraints, attribute_checker.normalize_and_verify, constraints.check_constraints) and of the C++ back end's attribute verification (header_generator._propagate_defaults_and_verify_attributes) decides the documented rules, for every attribute/reserved-word table; string validators of (cpp) namespace / enum_case modelled as scanners and proved to decide their grammars; prelude static_requirements evaluated with the C05 model of ir_util.constant_value; tables regenerated each run (prelude.emb through the real front end; front-end and (cpp) attribute tables, C++ reserved words, supported enum cases by import+introspection; reserved_words from the file; the namespace regular expressions compared with the ones the scanner was proved against) + differential correspondence on generated realisable modules, boundary variants and single-rule violations (verdict of front end and back end, effective attributes) and on generated attribute strings (function level)",
-    "level_text": "Machine-checked theorems (Coq 8.16, no axioms), for ALL modules of the modelled IR subset and ALL tables. check_layout_iff_realisable: documented width ranges, enum range vs maximum_bits/is_signed, bits fixed-size <= 64 with bit-oriented members only, array element rules with only the outermost length omitted, explicit size = fixed size, byte order present iff it matters and Null only for one-unit fields, attribute scope/multiplicity/value tables, reserved words, integer parameter widths. check_layout_x_iff_realisable_x extends it with: the (cpp) attribute table at every attribute-bearing node of every module (namespace only on the module and not defaultable, enum_case $default on module/struct/bits/enum and plain on enum values, nothing on fields/externals, no duplicates, string values), namespace_rule (optional leading ::, non-empty ::-separated list of C++ identifiers padded by whitespace, none reserved; empty/global/invalid/reserved classified as the back end does), enum_case_rule (comma-separated padded names, optional trailing comma, non-empty, distinct, supported), [requires] only on non-array integer/enumeration/boolean fields, integer parameters need and enum parameters must not have an explicit width, gate64_rule (every run-time integer (sub)expression fits uint64 or int64 and no operation mixes a uint64-only with an int64-only clause), imported modules (type tables span all modules of the IR; each imported module's own attributes and back-end declarations). prelude_requirements, defaults_inherited, struct_fixed_size_spec as before. parameter_names_checked: an accepted module has no runtime parameter named by a reserved word (rule added to the front end by /repo 8d5ef9f; old_parameter_names_unchecked_refuted documents the earlier checker).",
-    "level_note": "Trusted: Coq kernel + vm_compute; harness/types_x.py (LayoutTranslator, ExtTranslator; ir_util.constant_value and the bounds of expression_bounds are read from the IR, C05 covers them; the roots of the 64-bit gate are collected with traverse_ir and the arguments of the compiler's own traversal); harness/gen_typed.py decides the documented verdict of each generated case by construction. Modelled, not verified: the Python source. Not modelled: user-defined externals (addressable_unit_size / is_integer / static_requirements of non-prelude externals: counted out-of-model), expected_back_ends syntax, constancy of static references (\"Static references must refer to constants\"), non-ASCII characters in attribute strings; errors from those checks are excluded from the verdict comparison (counted).",
+    "technique": "Coq proof that a Gallina mirror of the front end's layout/attribute passes (check_early_constraints, attribute_checker.normalize_and_verify, constraints.check_constraints) and of the C++ back end's attribute verification (header_generator._propagate_defaults_and_verify_attributes) decides the documented rules, for every attribute/reserved-word table; string validators of (cpp) namespace / enum_case modelled as scanners and proved to decide their grammars; prelude static_requirements evaluated with the C05 model of ir_util.constant_value; tables regenerated each run (prelude.emb through the real front end; front-end and (cpp) attribute tables, C++ reserved words, supported enum cases by import+introspection; reserved_words from the file; the namespace regular expressions compared with the ones the scanner was proved against) + differential correspondence on generated realisable modules, boundary variants and single-rule violations (verdict of front end and back end, effective attributes) and on generated attribute strings (function level); second extension: user-defined `external` types inside the layout model itself (type references RExt, m_externals: attribute table of the external scope, addressable_unit_size present and 1 or 8, fixed_size_in_bits against field size and explicit size, static_requirements translated to the C05 expression language and evaluated with $static_size_in_bits / $is_statically_sized by the C05 model of ir_util.constant_value, unit of the external in struct / bits and for the byte order), constancy of static references (target classified through ir_util.find_object), [expected_back_ends] as a scanner proved to decide its grammar (the regular expression in attribute_checker._valid_back_ends is compared with the one the scanner was written against, fail closed; 300 generated strings compared at function level)",
+    "level_text": "Machine-checked theorems (Coq 8.16, no axioms), for ALL modules of the modelled IR subset and ALL tables. check_layout_iff_realisable: documented width ranges, enum range vs maximum_bits/is_signed, bits fixed-size <= 64 with bit-oriented members only, array element rules with only the outermost length omitted, explicit size = fixed size, byte order present iff it matters and Null only for one-unit fields, attribute scope/multiplicity/value tables, reserved words, integer parameter widths. check_layout_x_iff_realisable_x extends it with: the (cpp) attribute table at every attribute-bearing node of every module (namespace only on the module and not defaultable, enum_case $default on module/struct/bits/enum and plain on enum values, nothing on fields/externals, no duplicates, string values), namespace_rule (optional leading ::, non-empty ::-separated list of C++ identifiers padded by whitespace, none reserved; empty/global/invalid/reserved classified as the back end does), enum_case_rule (comma-separated padded names, optional trailing comma, non-empty, distinct, supported), [requires] only on non-array integer/enumeration/boolean fields, integer parameters need and enum parameters must not have an explicit width, gate64_rule (every run-time integer (sub)expression fits uint64 or int64 and no operation mixes a uint64-only with an int64-only clause), imported modules (type tables span all modules of the IR; each imported module's own attributes and back-end declarations). prelude_requirements, defaults_inherited, struct_fixed_size_spec as before. SECOND EXTENSION. User-defined externals are part of check_layout_iff_realisable / check_layout_x_iff_realisable_x (re-proved): external_addressable_unit_rule ([addressable_unit_size] present, 1 or 8), external_unit_rule (that unit decides bits membership and the need for a byte order), external_requirements_rule (static_requirements, bound to the size the field gives the type, must be the constant true; none = no requirement), external_range_requirement (a requirement written `$is_statically_sized && lo <= $static_size_in_bits <= hi` means exactly lo <= w <= hi), fixed_size_in_bits of an external treated as the fixed size of a structure is (explicit size equal, field size equal / large enough, array elements fixed-size and whole bytes in a struct). check_layout_y_iff_realisable_y adds: static_reference_rule (every static reference that reaches check_constraints resolves to a constant enum value or a virtual field with a constant value), expected_back_ends_rule (blank, or comma-separated names [a-z][a-z0-9_]* padded by whitespace with an optional trailing comma), expected_back_ends_members (accepted qualifiers = trimmed comma-separated pieces), back_end_declaration_rule for every module of the IR. parameter_names_checked: an accepted module has no runtime parameter named by a reserved word (rule added to the front end by /repo 8d5ef9f; old_parameter_names_unchecked_refuted documents the earlier checker).",
+    "level_note": "Trusted: Coq kernel + vm_compute; harness/types_x.py (LayoutTranslator, ExtTranslator; ir_util.constant_value and the bounds of expression_bounds are read from the IR, C05 covers them; the roots of the 64-bit gate are collected with traverse_ir and the arguments of the compiler's own traversal); harness/gen_typed.py decides the documented verdict of each generated case by construction. Modelled, not verified: the Python source. Read from the IR rather than modelled: whether the target of a static reference is constant (ir_util.is_constant_type of the virtual field's read_transform, ir_util.is_constant of the enum value: expression_bounds, property C05), the value kind of a field of a user-defined external for [requires] (type_check.unbounded_expression_type_for_physical_type, i.e. is_integer). Not modelled (counted out-of-model): runtime parameters of a user-defined external type (with an explicit width expression_bounds raises AssertionError 'Unknown integral type'; without one check_early_constraints rejects), static_requirements that use operators outside {&&, ||, comparisons, ==/!= on booleans, + - *, ?:, $max} or refer to other objects, static references to physical fields / parameters (rejected by type_check before the layout passes), non-ASCII characters in attribute strings.",
 }
 
-HEADER = "Require Import EmbossV.Bounds.Model EmbossV.Layout.Model EmbossV.Layout.Exec EmbossV.Layout.ModelExt EmbossV.Layout.ExecExt.\nFrom Coq Require Import String.\nOpen Scope string_scope.\nOpen Scope Z_scope.\n"
+HEADER = "Require Import EmbossV.Bounds.Model EmbossV.Layout.Model EmbossV.Layout.Exec EmbossV.Layout.ModelExt EmbossV.Layout.ExecExt EmbossV.Layout.ModelExt2 EmbossV.Layout.ExecExt2.\nFrom Coq Require Import String.\nOpen Scope string_scope.\nOpen Scope Z_scope.\n"
 
 
 def crash_key(crash):
@@ -55,15 +55,23 @@ def run(ctx):
                 "sizes that are constant without being literals (constant let, arithmetic on constant lets, static reference, literal) for "
                 "size-less scalars/enums, explicit widths and fixed-size structs; 900+ generated namespace and 450+ enum_case strings "
                 "(grammar-directed with whitespace incl. control characters, single-character insertions/deletions) against the back end's "
-                "validators; distinct by module text / string")
+                "validators; second extension: user-defined externals (144 modules: addressable unit 1/8/missing/0,2,4,7,9,16,64,-1,-8, every external "
+                "attribute x scope x duplicate x $default x wrong value kind, fixed size 8..128 bits vs field one byte smaller / equal / larger, explicit "
+                "size vs fixed size, static_requirements ranges at lo-1, lo, hi, hi+1 in bits and bytes, requirements on dynamic sizes, ==/?:/$max/arithmetic, "
+                "byte- and bit-oriented externals in struct and bits with and without byte order, arrays, is_integer with [requires], nested and several "
+                "externals); implicit Null byte order with no byte_order in scope (41 modules: arrays / single fields of 8- and 16-bit bits types declared "
+                "before and after use, anonymous bits in [+1], [+2], [+n], UInt:8[4], explicit Null on one- and two-byte fields); static references (78 "
+                "modules: constant / non-constant targets x let, field start, field size, array length, condition, [requires], type argument, enum value, "
+                "maximum_bits); [expected_back_ends] (54 modules: well-formed and malformed lists, declared / undeclared qualifiers, value kinds, duplicates, "
+                "scopes) and 300 generated list strings at function level; distinct by module text / string")
     ctx.trusted = ["Coq 8.16.1 kernel, vm_compute", "harness/types_x.py", "harness/gen_typed.py", "harness/props/c14.py",
                    "CPython 3.12 running the working tree's front end"]
-    ctx.assumptions = ["user-defined externals and the checks listed in level_note are outside the model (counted)"]
+    ctx.assumptions = ["the cases listed as not modelled in level_note are outside the model (counted)"]
     import time
     t_start = time.time()
     timing = ctx.extra.setdefault("timing_s", {})
     ctx.audit()
-    ctx.check_theorems("EmbossV.Layout.Properties_C14", "Layout/Properties_C14.v", expect_min=26)
+    ctx.check_theorems("EmbossV.Layout.Properties_C14", "Layout/Properties_C14.v", expect_min=40)
 
     timing["theorems"] = round(time.time() - t_start, 1)
     # ---- cases ---------------------------------------------------------------------------
@@ -93,6 +101,11 @@ def run(ctx):
     # deterministic family, whole in every run; verdicts by construction
     for k, v in enumerate(gt.constant_size_cases()):
         cases.append(("csize:%d:%s" % (k, v.rule), v.text(), "m.emb", None, v, {}))
+    # second extension: user-defined externals; the implicit "Null" byte order (no byte_order in scope; deterministic)
+    for fam, fam_cases in (("extern", gx.external_cases(ctx.rng)), ("null", gx.null_border_cases()),
+                           ("sref", gx.static_ref_cases()), ("backends", gx.back_end_list_cases(ctx.rng))):
+        for k, v in enumerate(fam_cases):
+            cases.append(("%s:%d:%s" % (fam, k, v.rule), v.text(), "m.emb", v.extra, v, {}))
     order = sorted(range(len(cases)), key=lambda i: -len(cases[i][1]))
     pool = multiprocessing.Pool(min(fw.NPROC, 16))
     pending = pool.map_async(tx.analyse_c14, [(cases[i][1], cases[i][2], cases[i][3], fw.REPO) for i in order], chunksize=1)
@@ -193,6 +206,9 @@ def run(ctx):
                          "rule %s (line %d): the error %r has no source location" % (rule, case.line, nowhere[0][2]), replay)
                 else:
                     viol("error-site:%s" % rule, "rule %s planted on line %d; errors reported at %s" % (rule, case.line, [(e[0], e[1]) for e in full_detail][:4]), replay)
+        if label.split(":")[0] in ("extern", "null", "sref", "backends") and case is not None:
+            ctx.count("family:%s:%s" % (label.split(":")[0], "realisable-accepted" if case.doc_realisable and full_st == "ok" else
+                                        "violation-rejected" if not case.doc_realisable and full_st == "errors" else "UNEXPECTED"))
         if label.startswith("ext:") and case is not None:
             # per new rule: both directions
             ctx.count("new-rule:%s:%s" % (rule, "accepted" if full_st == "ok" else "rejected"))
@@ -221,14 +237,14 @@ def run(ctx):
         if front_st == "ok" and be is not None and be[0] in ("ok", "errors"):
             cpp = "(Some %s)" % ("true" if be[0] == "ok" else "false")
             ctx.count("cpp-verdict-compared:" + be[0])
-        coq_cases.append(("(%s,\n %s)" % (an["ext"], an["coq"]),
+        coq_cases.append(("((%s,\n %s),\n %s)" % (an["ext"], an["ext2"], an["coq"]),
                           "(XExpect %s %s true %s)" % ("true" if verdict else "false", cpp, "(Some %s)" % bs if bs else "None"),
                           dict(label=label, text=text, rule=rule, an=an, case=case, extra=extra, full_st=full_st)))
 
-    r = fw.CoqCases(ctx, "layout", hdr, "(run_layout_x T_run C_run)", "xout_agrees", "(ext_info * module)", "xout", shard=20)
+    r = fw.CoqCases(ctx, "layout", hdr, "(run_layout_y T_run C_run)", "xout_agrees", "(ext_info * ext_info2 * module)", "xout", shard=24)
     bad = r.run(coq_cases) if coq_cases else []
     timing["layout-cases-evaluated"] = round(time.time() - t_start, 1)
-    ctx.obligation("correspondence: %d modules: check_front_x(T_run) = the front end's verdict on the modelled rules (attribute tables, layout, [requires] placement, parameter rules, 64-bit gate, imported modules), check_cpp(C_run) = the C++ back end's attribute verification, effective byte order of every field, maximum_bits/is_signed of every enum and fixed size of every structure = the unqualified attributes after normalisation" % len(coq_cases), not bad)
+    ctx.obligation("correspondence: %d modules: check_front_y(T_run) = the front end's verdict (attribute tables, layout incl. user-defined externals, [requires] placement, parameter rules, 64-bit gate, imported modules, constancy of static references, [expected_back_ends] syntax and declared qualifiers of every module), check_cpp(C_run) = the C++ back end's attribute verification, effective byte order of every field, maximum_bits/is_signed of every enum and fixed size of every structure = the unqualified attributes after normalisation" % len(coq_cases), not bad)
     shown = 0
     for idx, out in bad:
         a, b, obj = coq_cases[idx]
@@ -252,7 +268,7 @@ def run(ctx):
             shown += 1
             continue
         ctx.violation("layout-model-mismatch", "model and compiler disagree on %s (compiler: %s)" % (obj["label"], b),
-                      dict(kind="module", correspondence="Layout.ModelExt.check_layout_x vs check_early_constraints+normalize_and_verify+check_constraints+header_generator._propagate_defaults_and_verify_attributes",
+                      dict(kind="module", correspondence="Layout.ModelExt2.check_layout_y vs check_early_constraints+normalize_and_verify+check_constraints+header_generator._propagate_defaults_and_verify_attributes",
                            module=obj["text"], extra_files=obj["extra"], rule=obj["rule"], python=b, model_outputs=out[:1500]), found_input=False)
         shown += 1
         if shown >= 5:
@@ -296,6 +312,32 @@ def run(ctx):
                               dict(kind="attribute-value", attribute=which, value=cl[idx][2][1], theorem="namespace_rule" if which == "namespace" else "enum_case_rule",
                                    module='[(cpp) %s: "%s"]\nstruct Foo:\n  0 [+1]  UInt  x\n' % ("namespace" if which == "namespace" else "$default enum_case", cl[idx][2][1].replace("\\", "\\\\").replace('"', '\\"').replace("\n", "\\n"))),
                               found_input=True)
+
+        # [expected_back_ends] strings: back_ends_okb / back_ends_of vs _valid_back_ends / _gather_expected_back_ends
+        be_cases = []
+        for sx in gx.be_strings(ctx.rng, 1200 if ctx.thorough() else 300):
+            try:
+                ok, got = tx.real_back_ends_verdict(sx)
+                term = tx.coq_bytes(sx)
+                exp = "(%s, [%s])" % ("true" if ok else "false", "; ".join(tx.coq_bytes(x) for x in sorted(got)))
+            except tx.OutOfModel:
+                ctx.count("out-of-model:back-ends-string")
+                continue
+            be_cases.append((term, exp, sx))
+            ctx.case(("be", sx), nontrivial=True)
+            ctx.count("back-ends-string:" + ("accepted" if ok else "rejected"))
+        hdr_be = hdr + ("Definition be_agrees (a b : bool * list string) : bool := Bool.eqb (fst a) (fst b) && "
+                        "forallb (fun x => str_in (\"\"%string :: snd a) x) (snd b) && forallb (fun x => str_in (snd b) x) (snd a).\n")
+        r3 = fw.CoqCases(ctx, "be", hdr_be, "run_be", "be_agrees", "string", "(bool * list string)", shard=500)
+        bad3 = r3.run(be_cases)
+        ctx.obligation("correspondence: %d strings: back_ends_okb = attribute_checker._valid_back_ends accepts, back_ends_of (+ the empty qualifier) = _gather_expected_back_ends as a set" % len(be_cases), not bad3)
+        for idx, out in bad3[:3]:
+            sx = be_cases[idx][2]
+            ctx.violation("expected-back-ends-validator-differs-from-grammar",
+                          "[expected_back_ends: %r]: front end says %s, the grammar decided by the model says %s" % (sx, be_cases[idx][1], " ".join(out.split())[:200]),
+                          dict(kind="attribute-value", attribute="expected_back_ends", value=sx, theorem="expected_back_ends_rule",
+                               module='[expected_back_ends: "%s"]\nstruct Foo:\n  0 [+1]  UInt  x\n' % sx.replace("\\", "\\\\").replace('"', '\\"').replace("\n", "\\n")),
+                          found_input=True)
 
     timing["strings-evaluated"] = round(time.time() - t_start, 1)
     # ---- a parameter named by a reserved word (repaired by /repo 8d5ef9f; theorem parameter_names_checked) ----------
